@@ -421,4 +421,11 @@ theorem checker_sound (edges : List (Nat × Nat)) (sorted : List Nat) (k : Nat) 
       exact mincut_of_finset ρ edges sorted _ flow (sideOf edges sorted k left) hs ht h0 h1 hval hmin hcan
   exact valid_of_mincut hc hm k rfl rfl left right hl hr
 
+/-- the check the judge executes is the reference check -/
+theorem checkerFast_eq (edges : List (Nat × Nat)) (sorted : List Nat) (k : Nat) (flow : ℤ)
+    (left right : List Nat) (res : List E) (tree : List (Nat × Nat)) :
+    checkerFast edges sorted k flow left right res tree = checkerOK edges sorted k flow left right res tree := by
+  unfold checkerFast checkerOK
+  simp only [cutCertFast_eq]
+
 end Tbx.BisectionTheory
